@@ -523,17 +523,19 @@ def _address_uri(ctx, repo):
                "AddressType.parser_data never stores data", key="store", nontrivial=False)
     # family-coded bytes are validated: for each family constant compared with data[:2] there is an
     # ipaddress.IPvNAddress(data[2:]) call inside a handler that raises a library error
-    fam = {}
-    for n in ast.walk(fn):
-        if isinstance(n, ast.If) and isinstance(n.test, ast.Compare) and ast.unparse(n.test.left).endswith("[:2]"):
-            const = repo.fold(at.mod, n.test.comparators[0])
-            calls = [call_name(c) for s in n.body for c in ast.walk(s) if isinstance(c, ast.Call)]
-            fam[const] = calls
+    from ._address import bytes_cases
+    cases = bytes_cases(repo, at, fn)
+    fam = {c: ["ipaddress." + v for v in (r["validators"] or [])] if r else [] for c, r in cases.items()}
     for const, want in ((b"\x00\x01", "ipaddress.IPv4Address"), (b"\x00\x02", "ipaddress.IPv6Address")):
         ctx.decide(const in fam and want in fam[const], "R-TABLE/address-family", f"{at.qual}.parser_data",
                    at.where(fn), f"family {const.hex()} bytes are parsed by {want}",
                    f"bytes with family code {const.hex()} are stored without being parsed by {want} "
                    f"(found {fam.get(const)})", key=f"family:{const.hex()}")
+        r_ = cases.get(const)
+        ctx.decide(r_ is not None and r_["rejects_with"] == {"DataTypeError"}, "R-ESC/address-family", f"{at.qual}.parser_data",
+                   at.where(fn), f"family {const.hex()}: a parse failure raises DataTypeError",
+                   f"family {const.hex()}: a failure of the address parse ends in {sorted(r_['rejects_with']) if r_ else None} instead of "
+                   f"DataTypeError", key=f"reject:{const.hex()}")
 
 
 def _scheme_set(pattern):
